@@ -175,7 +175,33 @@ func (vc *VC) fail(f string, a ...any) { panic(genErr(fmt.Sprintf(f, a...))) }
 
 func (vc *VC) bindingFailure(c *Clause, why string) {
 	vc.cur = nil
-	o := vc.oblige("contract-binding", "", "false", mergeTags(c.Tags, vc.tagsOfFunc()), token.NoPos, c)
+	tags := c.Tags
+	if len(tags) == 0 && c.Ghost != nil && vc.fc != nil {
+		// an observation (ghost assignment) that cannot be bound matters to the clauses that read the observed
+		// variable, i.e. to THEIR properties - not to every property the function is examined for
+		seen := map[string]bool{}
+		var all []*Clause
+		all = append(all, vc.fc.Requires...)
+		all = append(all, vc.fc.Ensures...)
+		all = append(all, vc.fc.Sites...)
+		all = append(all, vc.fc.Invs...)
+		for _, other := range all {
+			if other == c || len(other.Tags) == 0 || other.Expr == nil {
+				continue
+			}
+			names := map[string]bool{}
+			vc.ghostNamesIn(other.Expr, names)
+			if names[c.Ghost.Name] {
+				for _, t := range other.Tags {
+					if !seen[t] {
+						seen[t] = true
+						tags = append(tags, t)
+					}
+				}
+			}
+		}
+	}
+	o := vc.oblige("contract-binding", "", "false", mergeTags(tags, vc.tagsOfFunc()), token.NoPos, c)
 	o.Reach = "true"
 	o.Detail["why"] = why
 }
